@@ -730,7 +730,7 @@ def _killed(a):
     return a.startswith("DIED rc=-15") or a.startswith("DIED rc=-9") or a == "MISSING"
 
 
-def impl(ctx, lines):
+def run_impl(ctx, lines):
     """ctx.impl with one retry of the lines whose process was killed from outside"""
     res = ctx.impl(lines)
     bad = [i for i, a in enumerate(res) if _killed(a)]
@@ -741,7 +741,7 @@ def impl(ctx, lines):
     return res
 
 
-def both(ctx, lines):
+def run_both(ctx, lines):
     h, d = ctx.both(lines)
     bad = [i for i, a in enumerate(h) if _killed(a)]
     if bad and len(bad) < max(50, len(lines) // 2):
@@ -838,7 +838,7 @@ def c01_correspondence(ctx, corr):
     cases = [c for c in gen_cases(ctx) if fragment_ok(c.text)]
     ctx.notes["m4_c01_cases"] = cases
     lines = corpus_lines("C01") + [c.line() for c in cases]
-    h, d = both(ctx, lines)
+    h, d = run_both(ctx, lines)
     ctx.notes["m4_c01_impl"] = h[len(lines) - len(cases):]
     compare(corr, lines, h, d, "msp430.asm1")
     corr["streams"]["msp430.asm1"]["with -optimize"] = sum(1 for c in cases if "o" in c.opts)
@@ -854,14 +854,14 @@ def c01_correspondence(ctx, corr):
     dl = sorted(dl)
     rt = [l for l in dl if l.startswith("rt ")]
     dw = [l for l in dl if not l.startswith("rt ")]
-    h2, d2 = both(ctx, dw)
+    h2, d2 = run_both(ctx, dw)
     compare(corr, dw, h2, d2, "msp430.dis+walk(emitted)")
     ctx.notes["m4_c01_rt"] = rt
 
 
 def rt_expected(ctx, items):
     """real pipeline for rt lines: dis -> text -> asm1 at the same address/options"""
-    dis = impl(ctx, ["dis %s %x %s" % (CPU, a, words_hex(ws)) for a, o, ws in items])
+    dis = run_impl(ctx, ["dis %s %x %s" % (CPU, a, words_hex(ws)) for a, o, ws in items])
     al, idx = [], []
     for (a, o, ws), r in zip(items, dis):
         p = parse_dis(r)
@@ -870,13 +870,13 @@ def rt_expected(ctx, items):
             continue
         idx.append(len(al))
         al.append("asm1 %s %x %s %s" % (CPU, a, o, nvlib.hexs(p[1])))
-    res = impl(ctx, al)
+    res = run_impl(ctx, al)
     return [None if i is None else res[i] for i in idx], dis
 
 
 def check_c01(ctx, cases, stats, impl=None):
     fails = []
-    ans = impl if impl is not None else impl(ctx, [c.line() for c in cases])
+    ans = impl if impl is not None else run_impl(ctx, [c.line() for c in cases])
     acc = []
     for c, a in zip(cases, ans):
         merge_counts(stats, "asm1", 1)
@@ -920,7 +920,7 @@ def check_c01(ctx, cases, stats, impl=None):
         e = c.eff()
         lines.append("dis %s %x %s" % (CPU, e, words_hex(ws)))
         lines.append("walk %s %x %x %s" % (CPU, e, e + 2 * len(ws) - 1, words_hex(ws)))
-    res = impl(ctx, lines)
+    res = run_impl(ctx, lines)
     re_lines, re_idx = [], []
     for n, (c, ws) in enumerate(acc):
         d, wk = parse_dis(res[2 * n]), res[2 * n + 1]
@@ -943,7 +943,7 @@ def check_c01(ctx, cases, stats, impl=None):
                           "case": c.to_dict()})
         re_lines.append("asm1 %s %x %s %s" % (CPU, e, c.opts, nvlib.hexs(d[1])))
         re_idx.append((c, ws, d[1]))
-    res2 = impl(ctx, re_lines)
+    res2 = run_impl(ctx, re_lines)
     for (c, ws, txt), a in zip(re_idx, res2):
         if a.startswith("DIED") or a in ("MISSING", "bad-op"):
             fails.append({"sig": crash_sig("C01", txt, a), "input": "%s @%x" % (txt, c.eff()), "expected": "bytes or an error",
@@ -1002,7 +1002,7 @@ def c01_oracle(ctx, orc):
 def c06_correspondence(ctx, corr):
     cases = [c for c in gen_cases(ctx, "boundary") if fragment_ok(c.text)]
     lines = corpus_lines("C06") + [c.line() for c in cases]
-    h, d = both(ctx, lines)
+    h, d = run_both(ctx, lines)
     ctx.notes["m4_c06_cases"] = cases
     ctx.notes["m4_c06_impl"] = h[len(lines) - len(cases):]
     compare(corr, lines, h, d, "msp430.asm1(boundary)")
@@ -1011,7 +1011,7 @@ def c06_correspondence(ctx, corr):
 
 def check_c06(ctx, cases, stats, impl=None):
     fails = []
-    ans = impl if impl is not None else impl(ctx, [c.line() for c in cases])
+    ans = impl if impl is not None else run_impl(ctx, [c.line() for c in cases])
     groups = {}
     for c, a in zip(cases, ans):
         merge_counts(stats, "asm1", 1)
@@ -1093,7 +1093,7 @@ def c07_correspondence(ctx, corr):
     items = c07_items(ctx)
     ctx.notes["m4_c07_items"] = items
     lines = corpus_lines("C07") + ["dis %s %x %s" % (CPU, a, words_hex(ws)) for a, ws in items]
-    h, d = both(ctx, lines)
+    h, d = run_both(ctx, lines)
     ctx.notes["m4_c07_dis"] = h[len(lines) - len(items):]
     compare(corr, lines, h, d, "msp430.dis(all 65536 first words + structured)")
     # the assembler model on every disassembly text the real decoder produced (inside the parser fragment)
@@ -1103,7 +1103,7 @@ def c07_correspondence(ctx, corr):
         if p and p[0] != "nonul" and fragment_ok(p[1]) and a % 2 == 0:
             tl.add("asm1 %s %x - %s" % (CPU, a, nvlib.hexs(p[1])))
     tl = sorted(tl)
-    h2, d2 = both(ctx, tl)
+    h2, d2 = run_both(ctx, tl)
     ctx.notes["m4_c07_re"] = dict(zip(tl, h2))
     compare(corr, tl, h2, d2, "msp430.asm1(disassembly text)")
     # the decoder's structured reading (Disasm.toStmt, what the C07 theorems are about) re-assembled by the model
@@ -1132,7 +1132,7 @@ def c07_correspondence(ctx, corr):
 def check_c07(ctx, items, stats, dis=None, re_cache=None, opts="-"):
     fails = []
     if dis is None:
-        dis = impl(ctx, ["dis %s %x %s" % (CPU, a, words_hex(ws)) for a, ws in items])
+        dis = run_impl(ctx, ["dis %s %x %s" % (CPU, a, words_hex(ws)) for a, ws in items])
     todo = []
     for (a, ws), r in zip(items, dis):
         merge_counts(stats, "words", 1)
@@ -1152,7 +1152,7 @@ def check_c07(ctx, items, stats, dis=None, re_cache=None, opts="-"):
         res = [re_cache[l] for l in lines]
     else:
         uniq = sorted(set(lines))
-        got = dict(zip(uniq, impl(ctx, uniq)))
+        got = dict(zip(uniq, run_impl(ctx, uniq)))
         res = [got[l] for l in lines]
     again = []
     for (a, ws, t), r in zip(todo, res):
@@ -1166,7 +1166,7 @@ def check_c07(ctx, items, stats, dis=None, re_cache=None, opts="-"):
             again.append((a, ws, t, r[3:]))
         else:
             merge_counts(stats, "text_accepted_other_layout", 1)
-    res3 = impl(ctx, ["dis %s %x %s" % (CPU, a, b) for a, ws, t, b in again])
+    res3 = run_impl(ctx, ["dis %s %x %s" % (CPU, a, b) for a, ws, t, b in again])
     for (a, ws, t, b), r in zip(again, res3):
         p = parse_dis(r)
         if b == words_hex(ws)[:len(b)]:
@@ -1222,11 +1222,11 @@ def c08_correspondence(ctx, corr):
     walks = gen_walks(ctx, ctx.scale(800, 8000))
     ctx.notes["m4_c08_items"], ctx.notes["m4_c08_walks"] = items, walks
     lines = corpus_lines("C08") + ["dis %s %x %s" % (CPU, a, b) for a, b in items]
-    h, d = both(ctx, lines)
+    h, d = run_both(ctx, lines)
     ctx.notes["m4_c08_dis"] = h[len(lines) - len(items):]
     compare(corr, lines, h, d, "msp430.dis(all patterns)")
     wl = ["walk %s %x %x %s" % (CPU, s, e, b.hex()) for s, e, b in walks]
-    h2, d2 = both(ctx, wl)
+    h2, d2 = run_both(ctx, wl)
     ctx.notes["m4_c08_walk_impl"] = h2
     compare(corr, wl, h2, d2, "msp430.walk")
 
@@ -1235,7 +1235,7 @@ def check_c08_dis(ctx, items, stats, dis=None):
     rng = ctx.rng
     fails = []
     if dis is None:
-        dis = impl(ctx, ["dis %s %x %s" % (CPU, a, b) for a, b in items])
+        dis = run_impl(ctx, ["dis %s %x %s" % (CPU, a, b) for a, b in items])
     loc_lines, loc_idx = [], []
     for (a, b), r in zip(items, dis):
         merge_counts(stats, "dis", 1)
@@ -1264,7 +1264,7 @@ def check_c08_dis(ctx, items, stats, dis=None):
             if first + tail != b:
                 loc_lines.append("dis %s %x %s" % (CPU, a, first + tail))
                 loc_idx.append((a, b, r))
-    res = impl(ctx, loc_lines)
+    res = run_impl(ctx, loc_lines)
     for (a, b, r), l, r2 in zip(loc_idx, loc_lines, res):
         merge_counts(stats, "locality_checks", 1)
         if r2 != r:
@@ -1276,7 +1276,7 @@ def check_c08_dis(ctx, items, stats, dis=None):
 def check_c08_walk(ctx, walks, stats, impl=None):
     fails = []
     if impl is None:
-        impl = impl(ctx, ["walk %s %x %x %s" % (CPU, s, e, b.hex()) for s, e, b in walks])
+        impl = run_impl(ctx, ["walk %s %x %x %s" % (CPU, s, e, b.hex()) for s, e, b in walks])
     q = []
     parsed = []
     for (s, e, b), r in zip(walks, impl):
@@ -1294,7 +1294,7 @@ def check_c08_walk(ctx, walks, stats, impl=None):
                 off = a - s
                 q.append("dis %s %x %s" % (CPU, a, (b[off:off + 8] if 0 <= off < len(b) else b"").hex() or "00"))
     lens = []
-    for r in impl(ctx, q):
+    for r in run_impl(ctx, q):
         p = parse_dis(r)
         lens.append(p[0] if p and p[0] != "nonul" else None)
     k = 0
